@@ -18,6 +18,7 @@ import (
 	"mellium.im/xmpp/stream"
 	"mellium.im/xmpp/websocket"
 	"verif.sim/simrt"
+	"verif.sim/simrt/simnet"
 )
 
 // C12 — negotiation carries addresses and identifiers faithfully and checks them.
@@ -69,7 +70,9 @@ func runC12(rc *RC) {
 	if ch.Chance("workload", 1, 2) {
 		rc.Net.Chunk = func() int { return 1 + ch.Int("net", 100) }
 	}
-	switch sub := ch.Int("workload", 6); sub {
+	switch sub := ch.Int("workload", 7); sub {
+	case 6:
+		c12Concurrent(rc)
 	case 0, 1:
 		c12RoundTrip(rc)
 	case 2:
@@ -581,6 +584,116 @@ func (sd *c01Side) negotiatedAnything() bool {
 		}
 	}
 	return false
+}
+
+// (e) several sessions of one process open their streams at the same time, each on a connection whose peer takes the
+// header a few bytes at a time (the write blocks half way): every peer must still read the header of its own session.
+func c12Concurrent(rc *RC) {
+	ch := rc.Ch
+	strat := rc.S.ConfigureStrategy()
+	n := ch.Range("workload", 2, 4)
+	type cs struct {
+		origin, location jid.JID
+		lang             string
+		recv             bool
+		sut, peer        *simnet.Conn
+		done, peerDone   bool
+		err              error
+		hdr              []byte
+	}
+	ctx, cancel := context.WithTimeout(context.Background(), time.Minute)
+	rc.OnCleanup(cancel)
+	var all []*cs
+	langs := []string{"", "en", "de-CH", "x-verif"}
+	for i := 0; i < n; i++ {
+		c := &cs{origin: genJID(rc, "workload", true), lang: langs[ch.Int("workload", len(langs))], recv: ch.Chance("workload", 1, 3)}
+		c.location = c.origin.Domain()
+		c.sut, c.peer = rc.Net.Pipe(fmt.Sprintf("sut%d", i), fmt.Sprintf("peer%d", i))
+		c.sut.Out().Cap = ch.Range("net", 3, 40) // the peer's receive window: a header takes many rounds
+		sut, peer := c.sut, c.peer
+		rc.OnCleanup(func() { sut.Close(); peer.Close() })
+		all = append(all, c)
+		neg := xmpp.NewNegotiator(func(*xmpp.Session, *xmpp.StreamConfig) xmpp.StreamConfig {
+			if c.recv {
+				return xmpp.StreamConfig{Lang: c.lang, Features: []xmpp.StreamFeature{finFeature(nil)}}
+			}
+			return xmpp.StreamConfig{Lang: c.lang}
+		})
+		rc.Spawn(fmt.Sprintf("sut%d", i), func() {
+			if c.recv {
+				_, c.err = xmpp.ReceiveSession(ctx, c.sut, xmpp.Secure|xmpp.Authn, neg)
+			} else {
+				_, c.err = xmpp.NewSession(ctx, c.location, c.origin, c.sut, xmpp.Secure|xmpp.Authn, neg)
+			}
+			c.done = true
+		})
+		rc.Spawn(fmt.Sprintf("peer%d", i), func() {
+			defer func() { c.peerDone = true }()
+			if c.recv {
+				fmt.Fprintf(c.peer, `<?xml version='1.0'?><stream:stream xmlns='jabber:client' xmlns:stream='http://etherx.jabber.org/streams' version='1.0' from='%s' to='%s'>`, escText(c.origin.String()), escText(c.location.String()))
+			}
+			// take the header a few bytes at a time
+			buf := make([]byte, 16)
+			for {
+				k, err := c.peer.Read(buf[:1+ch.Int("net", 12)])
+				c.hdr = append(c.hdr, buf[:k]...)
+				if i := bytes.Index(c.hdr, []byte("<stream:stream")); i >= 0 && bytes.IndexByte(c.hdr[i:], '>') >= 0 {
+					break
+				}
+				if err != nil {
+					return
+				}
+			}
+			// let the session finish: drain whatever else it writes, answer an initiator with a header and an empty feature list
+			if !c.recv {
+				fmt.Fprintf(c.peer, `<?xml version='1.0'?><stream:stream xmlns='jabber:client' xmlns:stream='http://etherx.jabber.org/streams' version='1.0' id='sid' from='%s'><stream:features/>`, escText(c.location.String()))
+				return
+			}
+			for !c.done {
+				if _, err := c.peer.Read(buf); err != nil {
+					return
+				}
+				if bytes.Contains(c.sut.Out().Tap, []byte("</stream:features>")) {
+					io.WriteString(c.peer, `<fin xmlns='urn:verif:fin'/>`)
+				}
+			}
+		})
+	}
+	rc.Describe("concurrent sessions=%d strategy=%s", n, strat)
+	rc.CaseKey = fmt.Sprint("conc", n)
+	rc.S.Run(func() bool {
+		for _, c := range all {
+			if !c.peerDone {
+				return false
+			}
+		}
+		return true
+	}, 60000, 2*time.Minute)
+	for i, c := range all {
+		rc.Describe("session %d recv=%v origin=%q lang=%q header=%s", i, c.recv, c.origin.String(), c.lang, clip(string(c.hdr), 240))
+		j := bytes.Index(c.hdr, []byte("<stream:stream"))
+		if j < 0 {
+			rc.Failf("C12.c1", "no-header:concurrent", "session %d (recv=%v) of %d concurrent ones: its peer read %q and no stream header", i, c.recv, n, clip(string(c.hdr), 200))
+			continue
+		}
+		rc.Evals["C12.c1"]++
+		st, err := parseHeader(c.hdr[j:])
+		if err != nil {
+			rc.Failf("C12.c1", "header-not-well-formed:concurrent", "session %d of %d concurrent ones sent a stream header that is not well-formed XML (%v): %s", i, n, err, clip(string(c.hdr[j:]), 300))
+			continue
+		}
+		rc.Evals["C12.c2"]++
+		wantTo, wantFrom := c.location.String(), c.origin.String()
+		if c.recv {
+			wantTo, wantFrom = c.origin.String(), c.location.String()
+		}
+		to, _ := attrOf(st, "to")
+		from, _ := attrOf(st, "from")
+		lang, _ := attrOf(st, "lang")
+		if to != wantTo || from != wantFrom || lang != c.lang {
+			rc.Failf("C12.c2", "header-of-another-session", "session %d (recv=%v) of %d concurrent ones: its peer read a header with to=%q from=%q lang=%q, the session's own are to=%q from=%q lang=%q", i, c.recv, n, to, from, lang, wantTo, wantFrom, c.lang)
+		}
+	}
 }
 
 // (d) scripted initiator against the real receiving side of resource binding: the request's attributes in any order,
